@@ -165,6 +165,40 @@ def _memo_rules(model, an, rep):
             how = (", ".join(f"{k}: {v}" for k, v in sorted(s.covered.items()))
                    or "no parameter flows into the cached value")
             rep.ok(R1, s.construct, f"guard '{s.guard[:60]}' - {how}")
+    # a cache must not live in a dataclass field: dataclasses.replace
+    # copies every field into the derived object, whose inputs differ
+    def dataclass_fields(cls):
+        out = {}
+        for c in cls.mro():
+            is_dc = any(src(d).split("(")[0] in ("dataclass",
+                                                 "dataclasses.dataclass")
+                        for d in c.node.decorator_list)
+            if not is_dc:
+                continue
+            for st in c.node.body:
+                if isinstance(st, ast.AnnAssign) and isinstance(
+                        st.target, ast.Name) and "ClassVar" not in src(
+                            st.annotation):
+                    out.setdefault(st.target.id, c)
+        return out
+    for st_ in sites:
+        cls = st_.fn.cls
+        if cls is None:
+            continue
+        fields = dataclass_fields(cls)
+        hit = sorted(a for a in st_.cache_attrs if a in fields)
+        cons = st_.construct + ":storage"
+        if hit:
+            rep.fail(R2, st_.fn.path, st_.fn.short(), cons,
+                     f"the cache is kept in '{hit[0]}', a dataclass field "
+                     f"of {fields[hit[0]].name}: dataclasses.replace() "
+                     f"copies it into every derived object (refined, "
+                     f"translated, scaled, joined ...), which then answers "
+                     f"from a value computed for the old object",
+                     st_.node.lineno)
+        else:
+            rep.ok(R2, cons, "cache storage is not a dataclass field (not "
+                   "copied by replace)")
     # key functions used by keyed caches must be content-complete
     keyfuncs = {s.keyfunc for s in sites if s.keyfunc}
     for kf in sorted(keyfuncs):
@@ -505,6 +539,21 @@ def run(model: Model, rep, tier: str) -> None:
 _U = "skfem/utils.py"
 _CB = "skfem/assembly/basis/composite_basis.py"
 MUTANTS = [
+    ("quadrilateral finder cached in a dataclass field",
+     [("skfem/mesh/mesh_quad_1.py",
+       "    elem: Type[Element] = ElementQuad1\n",
+       "    elem: Type[Element] = ElementQuad1\n    _finder: Optional["
+       "object] = None\n"),
+      ("skfem/mesh/mesh_quad_1.py",
+       "        tri_finder = self.to_meshtri().element_finder()\n\n"
+       "        def finder(*args):\n            return tri_finder(*args) % "
+       "self.t.shape[1]\n\n        return finder",
+       "        if self._finder is None:\n            tri_finder = "
+       "self.to_meshtri().element_finder()\n            nelems = "
+       "self.t.shape[1]\n\n            def finder(*args):\n"
+       "                return tri_finder(*args) % nelems\n\n"
+       "            self._finder = finder\n\n        return self._finder")],
+     "C15-R2"),
     ("composite basis shifts its factors' DOF tables in place",
      (_CB, "            dofs = []\n            offset = 0\n            for "
       "basis in self.bases:\n                dofs.append(basis.element_dofs "
